@@ -321,14 +321,17 @@ func (ch *channel) receivedSegData(rsd recSegData) {
 			}
 		}
 
-		if ch.masterSegDuration == 0 && name == ch.masterTrName {
+		ch.mu.RLock()
+		isMasterTrack := name == ch.masterTrName // written by upload handlers (addTrData)
+		ch.mu.RUnlock()
+		if ch.masterSegDuration == 0 && isMasterTrack {
 			// Evaluate at least two durations to see if the are the same
 			sdb := ch.segTimesGen.segDataBuffers[name]
 			if sdb.nrItems() < 2 {
 				return
 			}
 			for i := uint32(0); i < sdb.nrItems(); i++ {
-				if name == ch.masterTrName && ch.masterSegDuration == 0 {
+				if isMasterTrack && ch.masterSegDuration == 0 {
 					// Evaluate the first two durations to see if they are consecutive with same duration. If not, drop the oldest one.
 					if sdb.items[1].seqNr != sdb.items[0].seqNr+1 || sdb.items[1].dur != sdb.items[0].dur ||
 						sdb.items[1].dur == 0 { // A zero duration cannot become the segment duration
@@ -367,8 +370,11 @@ func (ch *channel) receivedSegData(rsd recSegData) {
 					if err != nil {
 						log.Error("failed to write MPD", "err", err)
 					}
-					ch.maxNrBufSegs = ch.timeShiftBufferDepthS*ch.masterTimescale/ch.masterSegDuration + 2
-					windowSize := ch.maxNrBufSegs - 1
+					maxNrBufSegs := ch.timeShiftBufferDepthS*ch.masterTimescale/ch.masterSegDuration + 2
+					ch.mu.Lock()
+					ch.maxNrBufSegs = maxNrBufSegs // read by upload handlers when deleting old segments
+					ch.mu.Unlock()
+					windowSize := maxNrBufSegs - 1
 					log.Info("Starting channel", "windowSize", windowSize, "seqNrShift", ch.masterSeqNrShift,
 						"timeShift", ch.masterTimeShift)
 					ch.segTimesGen.start(windowSize, ch.isShifted())
